@@ -114,7 +114,8 @@ def excel_rows(source_path, sheet=1):
     Rows read from an Excel document (both :file:`*.xls` and :file:`*.xlsx`
     thanks to :py:mod:`xlrd`).
 
-    :param str source_path: path to the Excel file to be read
+    :param source_path: path to the Excel file to be read, or a binary \
+      stream holding it
     :param int sheet: the sheet in the file to be read
     :return: sequence of lists with each list representing a row in the \
       Excel file
@@ -124,11 +125,16 @@ def excel_rows(source_path, sheet=1):
     assert sheet >= 1, "sheet=%r" % sheet
 
     location = errors.Location(source_path, has_cell=True)
-    # Fail with an OSError only if the file cannot be opened; any later OSError is caused by damaged contents.
-    with open(source_path, "rb"):
-        pass
+    if isinstance(source_path, str):
+        # Fail with an OSError only if the file cannot be opened; any later OSError is caused by damaged contents.
+        with open(source_path, "rb"):
+            pass
     try:
-        with xlrd.open_workbook(source_path) as book:
+        if isinstance(source_path, str):
+            book_to_read = xlrd.open_workbook(source_path)
+        else:
+            book_to_read = xlrd.open_workbook(file_contents=source_path.read())
+        with book_to_read as book:
             if sheet > book.nsheets:
                 raise errors.DataFormatError(
                     "Excel file must contain at least %d sheet(s) instead of just %d" % (sheet, book.nsheets), location
